@@ -217,6 +217,156 @@ static void program(Rng& r, bool T) {
   if (want_sample()) sample("{\"program\":" + jstr(d) + ",\"orders\":" + std::to_string(orders.size()) + ",\"final_lg_k\":" + std::to_string(final_model.lg_k) + ",\"final_C\":" + std::to_string(final_model.C) + "}");
 }
 
+// ---------------------------------------------------------------- assignment programs
+// A pool of unions is driven by a random sequence of update / copy-assign / move-assign (from a used union,
+// from a fresh lvalue union, from a `cpc_union(lg_k)` temporary) / self copy-assign through a reference.
+// After an assignment the destination's model is the source's model (effective lg_k and coupon set), and the
+// usual clauses apply to everything that follows: result lg_k = min(lg_k carried by the assignment, non-empty
+// inputs since), exact OR-of-folded matrix; finally two copy-assigned unions get the remaining inputs in opposite
+// orders and must agree.
+struct Slot {
+  std::unique_ptr<cpc_union> u;
+  Model m;            // effective lg_k + coupon set
+  uint8_t cfg = 0;    // lg_k the union (or the union it was assigned from) was constructed with
+  bool live = false;
+};
+
+static void check_slot(const Slot& sl, const std::string& ctx) {
+  cpc_sketch res = sl.u->get_result();
+  ObsOpt o; o.expect_merged = sl.m.C > 0 ? 1 : -1;
+  observe(res, sl.m, "union-assign-result", ctx, o);
+}
+
+static void slot_update(Slot& sl, const In& in, Rng& r) {
+  classify(*sl.u, sl.m, in);
+  if (r.chance(0.3)) { cpc_sketch tmp(*in.sk); sl.u->update(std::move(tmp)); } else sl.u->update(*in.sk);
+  if (in.m.C > 0) { if (in.m.lg_k < sl.m.lg_k) sl.m = sl.m.folded(in.m.lg_k); sl.m.or_folded(in.m); }
+}
+
+static void assign_program(Rng& r, bool T) {
+  const uint64_t seed = r.chance(0.7) ? DEFAULT_SEED : r.next();
+  uint64_t budget = T ? 200000 : 60000;
+  const uint64_t domain = r.pick<uint64_t>({200, 3000, 40000, uint64_t(1) << 22});
+  const int kind = r.chance(0.6) ? static_cast<int>(V_U64) : -1;
+  std::vector<In> ins;
+  const int nin = static_cast<int>(r.range(3, 6));
+  std::string d = "assign-program seed=" + std::to_string(seed) + " inputs:";
+  for (int i = 0; i < nin; ++i) {
+    ins.push_back(make_input(r, T, seed, domain, kind, budget, 1));     // depth 1: hashed inputs only
+    d += " [" + std::to_string(i) + ": lg_k=" + std::to_string(ins.back().m.lg_k) + " C=" + std::to_string(ins.back().m.C) + "]";
+  }
+  // lg_k values of the unions that will be constructed (pool + temporaries), drawn up front
+  std::vector<uint8_t> lgs; for (int i = 0; i < 24; ++i) lgs.push_back(static_cast<uint8_t>(r.chance(0.5) ? r.range(9, T ? 13 : 12) : r.range(4, 12)));
+  size_t lgi = 0; auto next_lg = [&]() { return lgs[lgi++ % lgs.size()]; };
+  // representability of every reachable state: all inputs folded to the smallest lg_k around
+  { uint8_t gmin = 26; for (uint8_t x : lgs) gmin = std::min(gmin, x); for (auto& in : ins) gmin = std::min(gmin, in.m.lg_k);
+    Model fm(gmin); for (auto& in : ins) fm.or_folded(in.m);
+    if (fm.C > max_coupons(gmin)) { count("assign_program_skipped_not_representable"); return; } }
+  describe(d);
+  const int nslots = 3;
+  Slot pool[nslots];
+  for (auto& sl : pool) { sl.cfg = next_lg(); sl.u.reset(new cpc_union(sl.cfg, seed)); sl.m = Model(sl.cfg); sl.live = true; }
+  const int nops = static_cast<int>(r.range(6, 16));
+  std::string trace;
+  try {
+    for (int op = 0; op < nops; ++op) {
+      const int i = static_cast<int>(r.below(nslots));
+      Slot& dst = pool[i];
+      const unsigned what = static_cast<unsigned>(r.below(100));
+      std::string t;
+      auto note_dst = [&]() {
+        if (!dst.live) { count("assign_to_moved_from_union"); return; }
+        if (dst.m.lg_k < dst.cfg) count("assign_dst_after_reduce_k");
+        if (dst.u->accumulator == nullptr) count("assign_dst_had_bit_matrix");
+        else if (dst.m.C > 0) count("assign_dst_had_sparse_accumulator");
+      };
+      if (what < 45 || (!dst.live && what < 60)) {
+        if (!dst.live) continue;
+        const int which = static_cast<int>(r.below(ins.size()));
+        t = "u" + std::to_string(i) + ".update(in" + std::to_string(which) + ")";
+        trace += t + "; "; describe(d + " ops: " + trace);
+        slot_update(dst, ins[which], r);
+        if (dst.cfg != 0 && dst.live) count("assign_program_updates");
+        check_slot(dst, t);
+      } else if (what < 60) {           // u = cpc_union(lg) temporary
+        const uint8_t lg = next_lg();
+        t = "u" + std::to_string(i) + " = cpc_union(" + std::to_string(lg) + ")";
+        trace += t + "; "; describe(d + " ops: " + trace);
+        note_dst();
+        *dst.u = cpc_union(lg, seed);
+        dst.m = Model(lg); dst.cfg = lg; dst.live = true;
+        count("assign_move_from_fresh_temporary");
+        check_slot(dst, t);
+      } else if (what < 68) {           // copy-assign from a fresh lvalue
+        const uint8_t lg = next_lg();
+        t = "fresh(" + std::to_string(lg) + "); u" + std::to_string(i) + " = fresh";
+        trace += t + "; "; describe(d + " ops: " + trace);
+        note_dst();
+        cpc_union fresh(lg, seed);
+        *dst.u = fresh;
+        dst.m = Model(lg); dst.cfg = lg; dst.live = true;
+        count("assign_copy_from_fresh");
+        check_slot(dst, t);
+        // the source stays a working empty union
+        ObsOpt o; observe(fresh.get_result(), Model(lg), "union-assign-result", t + " (source)", o);
+      } else if (what < 76) {           // self copy-assign through a reference
+        if (!dst.live) continue;
+        t = "u" + std::to_string(i) + " = (ref to u" + std::to_string(i) + ")";
+        trace += t + "; "; describe(d + " ops: " + trace);
+        const cpc_union& ref = *dst.u;
+        *dst.u = ref;
+        count("assign_self_copy");
+        if (dst.m.C > 0) count("assign_self_copy_nonempty");
+        check_slot(dst, t);
+      } else {                          // from another (used) union of the pool: copy or move
+        const int j = static_cast<int>((i + 1 + r.below(nslots - 1)) % nslots);
+        Slot& src = pool[j];
+        if (!src.live) continue;
+        const bool mv = what >= 88;
+        t = "u" + std::to_string(i) + (mv ? " = std::move(u" : " = u") + std::to_string(j) + (mv ? ")" : "");
+        trace += t + "; "; describe(d + " ops: " + trace);
+        note_dst();
+        if (src.m.lg_k < src.cfg) count("assign_src_reduced");
+        if (src.u->accumulator == nullptr) count("assign_src_has_bit_matrix"); else if (src.m.C > 0) count("assign_src_has_sparse_accumulator"); else count("assign_src_empty");
+        if (src.m.lg_k != dst.m.lg_k || !dst.live) count("assign_changes_lg_k");
+        if (mv) { *dst.u = std::move(*src.u); src.live = false; count("assign_move_from_used"); }
+        else { *dst.u = *src.u; count("assign_copy_from_used"); }
+        dst.m = src.m; dst.cfg = src.cfg; dst.live = true;
+        check_slot(dst, t);
+        if (!mv) check_slot(src, t + " (source)");
+      }
+    }
+    // order independence after an arbitrary history: two copy-assigned unions, remaining inputs in opposite orders
+    for (int i = 0; i < nslots; ++i) {
+      Slot& sl = pool[i];
+      if (!sl.live) continue;
+      Slot a, b;
+      a.u.reset(new cpc_union(next_lg(), seed)); b.u.reset(new cpc_union(next_lg(), seed));
+      *a.u = *sl.u; *b.u = *sl.u;
+      a.m = sl.m; b.m = sl.m; a.cfg = b.cfg = sl.cfg; a.live = b.live = true;
+      std::vector<int> ord(ins.size()); for (size_t x = 0; x < ins.size(); ++x) ord[x] = static_cast<int>(x);
+      r.shuffle(ord);
+      const size_t take = 1 + r.below(ins.size());
+      for (size_t x = 0; x < take; ++x) slot_update(a, ins[ord[x]], r);
+      for (size_t x = take; x-- > 0;) slot_update(b, ins[ord[x]], r);
+      const std::string ctx = "u" + std::to_string(i) + " copy-assigned twice, " + std::to_string(take) + " inputs in opposite orders";
+      describe(d + " ops: " + trace + ctx);
+      check_slot(a, ctx + " (forward)"); check_slot(b, ctx + " (backward)");
+      cpc_sketch ra = a.u->get_result(), rb = b.u->get_result();
+      auto ma = ra.build_bit_matrix(); auto mb = rb.build_bit_matrix();
+      VF_CHECK(ra.get_lg_k() == rb.get_lg_k(), "union-assign-result|order-dependent-lg_k", d + " ops: " + trace + ctx);
+      VF_CHECK(ma.size() == mb.size() && std::equal(ma.begin(), ma.end(), mb.begin()), "union-assign-result|order-dependent-coupons", d + " ops: " + trace + ctx);
+      VF_CHECK(dbits(ra.get_estimate()) == dbits(rb.get_estimate()), "union-assign-result|order-dependent-estimate", d + " ops: " + trace + ctx);
+      count("assign_order_pairs_compared");
+      check_slot(sl, ctx + " (source untouched)");
+    }
+  } catch (const std::exception& e) {
+    fail("union-assign|threw", d + " ops: " + trace + " what=" + e.what());
+  }
+  count("assign_programs");
+  if (want_sample()) sample("{\"program\":" + jstr(d) + ",\"ops\":" + jstr(trace) + "}");
+}
+
 // thorough only: lg_k = 26 union in the sparse representation, then reduced to a small lg_k
 static void big_union(Rng& r) {
   const uint64_t seed = DEFAULT_SEED;
@@ -248,7 +398,7 @@ void run_case(uint64_t idx, Rng& r) {
   const bool T = G().thorough();
   if (T && idx == 13) { big_union(r); return; }
   try {
-    program(r, T);
+    if (idx % 5 == 2) assign_program(r, T); else program(r, T);
   } catch (const std::exception& e) {
     // building an input (updates, nested union, deserialization of the library's own image) must not throw either
     fail("union|threw-while-building-inputs", G().cur_desc + " what=" + e.what());
